@@ -37,10 +37,26 @@ def _evaluate(text, frags, space, acc, state):
         acc.violation(e1.viol(bad[0], str(bad[1]), bad[2], text, frags, space))
 
 
+# what follows a statement end WITHOUT a separating blank: after ';' the next piece starts as at the start of a
+# text, after a GO count ('go 2') it starts behind a word character, which the look-behinds of the dollar-quote,
+# bracket-name and placeholder rules can see in the script but not in the piece alone
+GLUE_HEADS = ['go 2', 'a go 2', ';', 'go\n']
+GLUE_TAIL = [';', ' ', 'a', '$$', '(', ')', '[', ']', ':b']
+
+
+def glued_cases(tier):
+    import itertools
+    n = 5 if tier == 'quick' else 6
+    cases = [(h,) + t for h in GLUE_HEADS for k in range(1, n + 1)
+             for t in itertools.product(GLUE_TAIL, repeat=k)]
+    return (f'GLUE heads x tails<={n}', cases, '')
+
+
 def run(tier, seed):
     sp = _e1parse.parse_spaces(tier, focus=() if tier == 'quick' else ('D4', 'D7'), light=True)
     sp.append((f'SPL<={5 if tier == "quick" else 6} blank', spaces.SPL, 5 if tier == 'quick' else 6, ' '))
-    merged, sizes = e1.run(sp, _evaluate, seed, bits=27 if tier == 'thorough' else 23, setup=_setup)
+    merged, sizes = e1.run(sp, _evaluate, seed, bits=27 if tier == 'thorough' else 23, setup=_setup,
+                           extra_cases=[glued_cases(tier)])
     cov = {
         'evaluations': merged['n'], 'distinct_nontrivial': merged['distinct'],
         'rule': 'same string spaces as C02 with the statement-boundary driver D7 (; GO BEGIN CREATE '
